@@ -25,7 +25,7 @@ VERIF = Path(__file__).resolve().parent.parent
 REPO = Path(os.environ.get("VERIF_REPO", "/repo"))
 SRC = REPO / "src" / "icalendar"
 EVIDENCE_DIR = Path(os.environ.get("VERIF_EVIDENCE_DIR") or (VERIF / "evidence"))   # override only for scratch runs against seeded copies
-REPLAY_DIR = VERIF / "replays"
+REPLAY_DIR = VERIF / "replays" if not os.environ.get("VERIF_EVIDENCE_DIR") else VERIF / "replays" / "scratch"     # scratch runs (seeded copies) keep their replays apart
 KNOWN_FINDINGS = VERIF / "known_findings.json"
 
 PROVED, REFUTED, UNDECIDED, ERROR = "proved", "refuted", "undecided", "error"
@@ -132,7 +132,7 @@ def findings_for(pid: str) -> list[dict]:
 # replay files
 
 def write_replay(pid: str, name: str, payload: dict) -> str:
-    REPLAY_DIR.mkdir(exist_ok=True)
+    REPLAY_DIR.mkdir(parents=True, exist_ok=True)
     h = hashlib.sha1(json.dumps(payload, sort_keys=True, default=repr).encode()).hexdigest()[:8]
     safe = "".join(c if c.isalnum() or c in "-_." else "_" for c in name)[:80]
     path = REPLAY_DIR / f"{pid}-{safe}-{h}.json"
